@@ -232,7 +232,21 @@ def check_ast(segs, sep, style, res, source="grid"):
                       "[!name=admin]", "'a*b'"):
             q = YAMLPath(text)
             before = str(q)
+            fresh = YAMLPath(text)
+            # equality is a function of the current segments: asked before,
+            # between and after the mutations of one object
+            if not q == fresh:
+                res.fail({"clause": "3-equal-to-its-own-text", "segs": kinds},
+                         case, "%r" % text)
+                return
             q.append(extra)
+            if q == fresh or not q == YAMLPath(str(q)):
+                res.fail({"clause": "4-equality-follows-append", "segs": kinds,
+                          "appended": extra}, case,
+                         "after append %r: equals the old path %r, equals its "
+                         "own text %r" % (str(q), q == fresh,
+                                          q == YAMLPath(str(q))))
+                return
             q.pop()
             if str(q) != before or q != YAMLPath(text) or \
                     norm(pathast.from_path(q)) != want:
